@@ -164,6 +164,14 @@ Inductive edist := DFin (q : Qc) | DPInf | DNInf | DNaN.
    (as repaired: `if norm.is_zero() && x.is_zero() { infinity }`) *)
 Definition dist_entry (row : vec) (nrm raw : Qc) : edist :=
   if vall_zero row then (if qltb raw 0 then DNInf else DPInf) else DFin (raw / nrm).
+(* the code as found after the D12 repair: the squared norm was computed with Iterator::sum, and the sum of an
+   empty f64 iterator is -0.0 (rustc 1.96): for a row without columns (0-dimensional space) norm = sqrt(-0.0) = -0.0,
+   so raw / norm has the opposite sign; repaired by folding from +0.0 *)
+Definition dist_entry_v1 (row : vec) (nrm raw : Qc) : edist :=
+  match row with
+  | [] => if qeqb raw 0 then DPInf else if qltb raw 0 then DPInf else DNInf
+  | _ => dist_entry row nrm raw
+  end.
 Definition dist_entry_old (row : vec) (nrm raw : Qc) : edist :=
   if vall_zero row then (if qltb raw 0 then DNInf else if qeqb raw 0 then DNaN else DPInf) else DFin (raw / nrm).
 Fixpoint dist_rows (e : vec -> Qc -> Qc -> edist) (A : mat) (norms raws : vec) : list edist :=
@@ -173,6 +181,8 @@ Fixpoint dist_rows (e : vec -> Qc -> Qc -> edist) (A : mat) (norms raws : vec) :
   end.
 Definition p_distance (P : aff) (norms : vec) (x : vec) : option (list edist) :=
   if Nat.eqb (length x) (a_in P) then Some (dist_rows dist_entry (a_mat P) norms (raw_dist P x)) else None.
+Definition p_distance_v1 (P : aff) (norms : vec) (x : vec) : option (list edist) :=
+  if Nat.eqb (length x) (a_in P) then Some (dist_rows dist_entry_v1 (a_mat P) norms (raw_dist P x)) else None.
 Definition p_distance_old (P : aff) (norms : vec) (x : vec) : option (list edist) :=
   if Nat.eqb (length x) (a_in P) then Some (dist_rows dist_entry_old (a_mat P) norms (raw_dist P x)) else None.
 (* 0 <= d in the extended order (NaN compares false) *)
